@@ -77,7 +77,7 @@ func (e *Env) ServerNodes() []*ModelNode {
 	var out []*ModelNode
 	for _, o := range st.List(gvkNode) {
 		n := o.(*corev1.Node)
-		out = append(out, &ModelNode{Name: n.Name, Labels: n.Labels, Taints: n.Spec.Taints, Allocatable: n.Status.Allocatable, Pods: byNode[n.Name]})
+		out = append(out, &ModelNode{Name: n.Name, Labels: n.Labels, Taints: n.Spec.Taints, Allocatable: n.Status.Allocatable, Pods: byNode[n.Name], Meta: "node"})
 	}
 	return out
 }
